@@ -40,16 +40,18 @@ Theorem history_reparse : forall rx ops, Forall op_ok ops -> accept_kinds (kinds
 Proof. exact history_reparse_main. Qed.
 Print Assumptions history_reparse.
 
-(* FULL STATEMENT:
-     forall rx rs o rs' res, step rx rs o = (rs', res) -> rejected o res = true -> rs' = rs.
-   Proved for every operation and outcome except `sheet.cssText = text` ending in a NoModificationAllowedErr raised by
-   the _cleanNamespaces call that follows a successful parse (no history producing it is known: the parser never
-   keeps two @namespace rules with one prefix; the model keeps the branch because the code has it). *)
-Theorem rejected_unchanged_partial : forall rx rs o rs' res,
-  step rx rs o = (rs', res) -> rejected o res = true ->
-  (ends_in_clean o = true -> res <> Exc NoModificationAllowedErr) -> rs' = rs.
+(* a rejected call (an exception, or None from insertRule) leaves the rule list unchanged -- every operation, every
+   outcome, both modes.  (Uses: insertRule restores the list when _cleanNamespaces refuses; the parser keeps the
+   prefixes of its @namespace rules distinct, so the _cleanNamespaces that ends `cssText =` never raises.) *)
+Theorem rejected_unchanged : forall rx rs o rs' res,
+  step rx rs o = (rs', res) -> rejected o res = true -> rs' = rs.
 Proof. exact rejected_unchanged_main. Qed.
-Print Assumptions rejected_unchanged_partial.
+Print Assumptions rejected_unchanged.
+
+(* the final _cleanNamespaces of a parse never raises *)
+Theorem parse_clean_never_raises : forall rx env ps rs e, parse_sheet rx env ps = inl (rs, Some e) -> False.
+Proof. exact parse_sheet_noraise. Qed.
+Print Assumptions parse_clean_never_raises.
 
 (* the witness that used to refute the statement (insertRule raising out of _cleanNamespaces) *)
 Example clean_raise_is_unchanged : step true refute_sheet refute_op = (refute_sheet, Exc NoModificationAllowedErr).
